@@ -110,7 +110,7 @@ var specs = map[string]spec{
 			{name: "terminates", test: "TestC07Terminates", rapid: true, checks: [2]int{700, 10000}, shards: [2]int{12, 12}, secs: [2]int{900, 7200}},
 			{name: "errors", test: "TestC07Errors", rapid: true, checks: [2]int{400, 15000}, shards: [2]int{4, 4}, secs: [2]int{900, 7200}},
 		},
-		rule:        "terminates: programs of the profiles REG, MEM, SHADOW, WALK, SHADOWSLOW, MEMSAFE, OWNER on all 33 configurations; the outcome must be ok within the budget of simulated loop iterations (a recovered Go panic, a budget overrun or an error is a violation; values are not compared). errors: programs that reach a defined error on the executed path — div/rem by the zero register or by a register holding 0, a taken branch or a jump to an undefined label — early, late, inside a counted loop, right after a long-latency load; the outcome must be an error value (ok, a panic or a budget overrun is a violation). Non-trivial = (terminates) the run has a memory access or a taken transfer, (errors) the reference reaches the fault (always, else the case is skipped); distinct by (text, registers, memory image).",
+		rule:        "terminates: programs of the profiles REG, MEM, SHADOW, WALK, SHADOWSLOW, MEMSAFE, OWNER on all 33 configurations; the outcome must be ok within the budget of simulated loop iterations (a recovered Go panic, a budget overrun or an error is a violation; values are not compared). errors: programs that reach a defined error on the executed path — div/rem by the zero register or by a register holding 0, a taken branch or a jump to an undefined label — early, late, inside a counted loop, right after a long-latency load, or as a slow fault (the dividend is loaded right before, so the division waits while a ret, a taken branch or a first-time jump behind it goes ahead and the error is raised inside a drain loop); the outcome must be an error value (ok, a panic or a budget overrun is a violation). Non-trivial = (terminates) the run has a memory access or a taken transfer, (errors) the reference reaches the fault (always, else the case is skipped); distinct by (text, registers, memory image).",
 		assumptions: []string{"the reference interpreter harness/ref is the sequential semantics (cross-checked per instruction by C02)", "parallelism p means EU = WU = p on MVP-6.x and p cores on MVP-7.x/8", "a case matching the trigger of a finding listed in /verif/known-findings.txt is not judged on the configurations of that finding (counted under excluded_by_known_finding)", "budget of simulated loop iterations = 16 x (executed instructions + 64) x 309, never wall-clock"},
 	},
 	"C09": {
